@@ -1,16 +1,15 @@
-SPECIFICATION RSpec
+SPECIFICATION Spec
 CONSTANTS
-  NK = 2
-  MaxSeq = 3
+  NK = 3
+  MaxSeq = 6
   NL = 3
   MemCap = 2
-  FileCap = 2
+  FileCap = 4
   MaxSnaps = 0
   MaxPins = 0
+  MaxFiles = 12
   KeepExtra = FALSE
-  Ops = {0, 1}
-  MaxFiles = 6
-  MaxReopens = 2
+  Ops = {1}
   Bug_RangeMin = FALSE
   Bug_NoBoundary = FALSE
   Bug_DropTombNoBase = FALSE
@@ -21,11 +20,7 @@ CONSTANTS
   Bug_ImmDropEarly = FALSE
   Bug_FlushDeepDuringCompaction = FALSE
   Bug_ExpandKeepsParents = FALSE
-  Bug_SnapshotSwapsBounds = FALSE
-  Bug_SeqFromManifestOnly = FALSE
-  Bug_ReplaySkipsOlderLogs = FALSE
-  Bug_CounterNotRestored = FALSE
-INVARIANTS RReadCorrect RWellFormed RSeqSane ManifestMatches NumbersFresh
-CONSTRAINT RBound
-VIEW RView
+INVARIANTS ReadCorrect WellFormed NothingLiveDeleted SeqSane
+CONSTRAINT MCBound MCScripted
+VIEW MCView
 CHECK_DEADLOCK FALSE
